@@ -46,7 +46,54 @@ type replayDriver struct {
 	Clock   bool              `json:"clock"`   // overlay core/timex/relativetime.go with the virtual clock
 	Values  map[string]string `json:"values"`  // ENV name -> term pattern (see termFor)
 	Timeout int               `json:"timeout_s"`
+	// a driver can also stand in as a BOUNDED check of functions the contracts do not reach (never counted as proved):
+	BoundedFor string `json:"bounded_for"` // property id: the driver is run on every check of that property
+	Covers     string `json:"covers"`      // the functions it stands in for
+	Bound      string `json:"bound"`       // the bound, in words
 }
+
+// BoundedResult is the outcome of one bounded stand-in.
+type BoundedResult struct {
+	Name   string  `json:"name"`
+	Covers string  `json:"covers"`
+	Bound  string  `json:"bound"`
+	Cmd    string  `json:"cmd"`
+	Passed bool    `json:"passed"`
+	Stats  string  `json:"stats"`
+	WallS  float64 `json:"wall_s"`
+	replay *ReplayResult
+}
+
+// runBounded runs the bounded stand-ins registered for a property.
+func (e *Engine) runBounded(prop, tier string) []BoundedResult {
+	if e.drivers == nil {
+		e.drivers = loadDrivers(e.verif)
+	}
+	var out []BoundedResult
+	for i := range e.drivers {
+		d := &e.drivers[i]
+		if d.BoundedFor != prop {
+			continue
+		}
+		tmp, err := os.MkdirTemp("", "gzv-bounded-")
+		if err != nil {
+			continue
+		}
+		t0 := time.Now()
+		rr := runDriver(e.repo, e.verif, d, map[string]string{"TIER": tier}, tmp)
+		os.RemoveAll(tmp)
+		br := BoundedResult{Name: d.Test, Covers: d.Covers, Bound: d.Bound, Cmd: rr.Cmd, WallS: time.Since(t0).Seconds(), replay: rr}
+		for _, l := range strings.Split(rr.Output, "\n") {
+			if i := strings.Index(l, "GZV-BOUNDED"); i >= 0 {
+				br.Stats = strings.TrimSpace(l[i+len("GZV-BOUNDED"):])
+			}
+		}
+		br.Passed = !rr.Reproduced && strings.Contains(rr.Output, "\nok ") || (!rr.Reproduced && strings.Contains(rr.Output, "--- PASS"))
+		out = append(out, br)
+	}
+	return out
+}
+
 
 func loadDrivers(verif string) []replayDriver {
 	b, err := os.ReadFile(filepath.Join(verif, "replay", "drivers.json"))
